@@ -81,7 +81,8 @@ let show_res (r : sres) : string =
   | ROk -> "ok"
   | ROpen (size, pos, eof) -> Printf.sprintf "ok size=%s pos=%s eof=%d" (zs size) (zs pos) (b01 eof)
   | RData (n, bytes, pos, size, eof) ->
-    Printf.sprintf "ok n=%s fnv=%08x pos=%s size=%s eof=%d" (zs n) (fnv32 (ints_of_zl bytes)) (zs pos) (zs size) (b01 eof)
+    Printf.sprintf "ok n=%s fnv=%08x pos=%s size=%s eof=%d data=%s" (zs n) (fnv32 (ints_of_zl bytes)) (zs pos) (zs size) (b01 eof)
+      (if List.length bytes <= 4096 then hex_of_bytes (ints_of_zl bytes) else "-")
   | RPos (pos, size, eof) -> Printf.sprintf "ok pos=%s size=%s eof=%d" (zs pos) (zs size) (b01 eof)
   | RLook (isdir, size, prot, nm) -> Printf.sprintf "ok type=%d size=%s acc=%s name=%s" (if isdir then 2 else -3) (zs size) (zs prot) (hex_of_bytes (ints_of_zl nm))
   | RList l ->
